@@ -113,9 +113,24 @@ pub fn config_of(s: &Script) -> Config {
     }
 }
 
+/// Either the scripted simulated server or a caller-supplied transport (e.g. the in-process mock Omaha server).
+pub enum AnyHttp {
+    Sim(SimHttp),
+    Custom(Box<dyn omaha_client::http_request::HttpRequest>),
+}
+impl omaha_client::http_request::HttpRequest for AnyHttp {
+    fn request(&mut self, req: hyper::Request<hyper::Body>) -> futures::future::BoxFuture<'_, Result<hyper::Response<Vec<u8>>, omaha_client::http_request::Error>> {
+        match self {
+            AnyHttp::Sim(s) => s.request(req),
+            AnyHttp::Custom(c) => c.request(req),
+        }
+    }
+}
+
 fn builder(
     w: &W,
-) -> StateMachineBuilder<SimPolicy, SimHttp, SimInstaller, SimTimer, SimMetrics, SimStorage, SimAppSet, StandardCupv2Handler> {
+    http: Option<Box<dyn omaha_client::http_request::HttpRequest>>,
+) -> StateMachineBuilder<SimPolicy, AnyHttp, SimInstaller, SimTimer, SimMetrics, SimStorage, SimAppSet, StandardCupv2Handler> {
     let (config, apps, system, cup) = {
         let g = lock(w);
         (
@@ -127,7 +142,10 @@ fn builder(
     };
     StateMachineBuilder::new(
         SimPolicy(w.clone(), SimTime(w.clone())),
-        SimHttp(w.clone()),
+        match http {
+            Some(h) => AnyHttp::Custom(h),
+            None => AnyHttp::Sim(SimHttp(w.clone())),
+        },
         SimInstaller(w.clone()),
         SimTimer(w.clone()),
         SimMetrics(w.clone()),
@@ -141,6 +159,11 @@ fn builder(
 impl Machine {
     /// Build a new state machine ("process start") on the world's surviving storage.
     pub fn build(w: &W, oneshot: bool) -> Machine {
+        Self::build_with_http(w, oneshot, None)
+    }
+
+    /// Like `build`, with a caller-supplied transport instead of the scripted simulated server.
+    pub fn build_with_http(w: &W, oneshot: bool, http: Option<Box<dyn omaha_client::http_request::HttpRequest>>) -> Machine {
         {
             let mut g = lock(w);
             let life = g.life;
@@ -149,7 +172,7 @@ impl Machine {
             g.gates.clear();
             g.log.push(Op::Build { life, oneshot });
         }
-        let b = builder(w);
+        let b = builder(w, http);
         let (ctl, stream): (Option<ControlHandle>, EventStream) = if oneshot {
             (None, Box::pin(futures::executor::block_on(b.oneshot_check())))
         } else {
